@@ -1,5 +1,89 @@
-"""C16 part 2 (decode under PAN / PAN-PREFIX configurations) — filled in with the ISO8583 model."""
+"""C16 part 2 — decoding under configurations that put the PAN / PAN-PREFIX processor on variable-length elements."""
+import copy
+
+from harness import common, isoutil as iu
+from harness.props import c01
+
+cfg_of, cfg_id = c01.cfg_of, c01.cfg_id
+
+
+def impl_eval(case):
+    from cardutil import iso8583
+    cfg = case['cfg']
+    plain = copy.deepcopy(cfg)
+    for fc in plain.values():
+        if fc.get('field_processor') in ('PAN', 'PAN-PREFIX'):
+            del fc['field_processor']
+    msg = iu.dict_unwire(case['msg'])
+    codec = case['codec']
+    data = iso8583.dumps(dict(msg), encoding=codec, iso_config=plain, hex_bitmap=bool(case['hex']))
+    obs, d, _ = iu.obs_loads(lambda: iso8583.loads(data, encoding=codec, iso_config=cfg, hex_bitmap=bool(case['hex'])), cfg)
+    why = None
+    if d is None:
+        why = f'decoding failed: {obs}'
+    else:
+        for k, fc in cfg.items():
+            proc = fc.get('field_processor')
+            key = f'DE{k}'
+            if proc not in ('PAN', 'PAN-PREFIX') or key not in msg:
+                continue
+            pan = msg[key]
+            if proc == 'PAN' and len(pan) >= 10:
+                want = pan[:6] + '*' * (len(pan) - 10) + pan[-4:]
+                if d.get(key) != want:
+                    why = f'{key} ({len(pan)} characters) decoded as {d.get(key)!r}, the masked form is {want!r}'
+            if proc == 'PAN-PREFIX' and d.get(key) != pan[:9]:
+                why = f'{key} decoded as {d.get(key)!r}, the prefix is {pan[:9]!r}'
+            hidden = (proc == 'PAN' and len(pan) > 10) or (proc == 'PAN-PREFIX' and len(pan) > 9)
+            if why is None and hidden and case.get('unique'):
+                for kk, v in d.items():
+                    if isinstance(v, str) and pan in v:
+                        why = f'the clear PAN of {key} appears in the returned value of {kk}'
+    return {'obs': [obs], 'violation': why, 'nontrivial': True, 'tags': ['decode-masking']}
+
+
+def model_line(case):
+    from cardutil import iso8583
+    cid = cfg_id(case)
+    plain = copy.deepcopy(case['cfg'])
+    for fc in plain.values():
+        if fc.get('field_processor') in ('PAN', 'PAN-PREFIX'):
+            del fc['field_processor']
+    data = iso8583.dumps(dict(iu.dict_unwire(case['msg'])), encoding=case['codec'], iso_config=plain,
+                         hex_bitmap=bool(case['hex']))
+    return [f'cfg.def\t{cid}\t{iu.cfg_wire(case["cfg"])}',
+            f"iso.loads\t{cid}\t{case['codec']}\t{case['hex']}\t{data.hex()}"]
+
+
+def model_obs(case, resp):
+    return [resp[-1]]
 
 
 def explore(run, tier):
-    run.notes.append('decode non-interference under PAN/PAN-PREFIX configurations: see iso8583 part')
+    rng = common.rng_for(run.seed, 'C16b')
+    pkg = iu.pkg_config()
+    cases = []
+    var_bits = [k for k, fc in pkg.items() if fc['field_type'] in ('LLVAR', 'LLLVAR') and not fc.get('field_processor')]
+    for rep in range(2 if tier == 'quick' else 30):
+        for k in var_bits:
+            for proc in ('PAN', 'PAN-PREFIX'):
+                cfg = copy.deepcopy(pkg)
+                cfg[k]['field_processor'] = proc
+                mx = 99 if cfg[k]['field_type'] == 'LLVAR' else 40
+                for n in range(10, min(41, mx + 1)):
+                    codec = ['latin_1', 'cp500', 'cp037'][(n + rep) % 3]
+                    kind = 'digits' if (n + rep) % 4 else 'any'
+                    pan = iu.text(rng, codec, n, kind)
+                    m = {'MTI': '1240', f'DE{k}': pan, 'DE3': '000000', 'DE24': iu.text(rng, codec, 3)}
+                    cases.append({'cfg': cfg, 'codec': codec, 'hex': n % 2, 'msg': iu.dict_wire(m),
+                                  'unique': kind == 'digits'})
+    for _ in range(40 if tier == 'quick' else 400):
+        cfg = iu.gen_config(rng)
+        if not any(fc.get('field_processor') in ('PAN', 'PAN-PREFIX') for fc in cfg.values()):
+            continue
+        for _ in range(10):
+            codec = rng.choice(['latin_1', 'cp500', 'cp037'])
+            m, _ = iu.gen_message(rng, cfg, codec, with_pds=False)
+            cases.append({'cfg': cfg, 'codec': codec, 'hex': rng.randrange(2), 'msg': iu.dict_wire(m), 'unique': False})
+    run.exhaustive.append('PAN and PAN-PREFIX on every unprocessed variable-length element of the packaged configuration x every length 10..40')
+    run.correspond(__name__, cases, use_model=run.use_model, chunk=150)
